@@ -271,9 +271,10 @@ func c11(c *Ctx) {
 				note(fmt.Sprintf("Resize(%d)", nm))
 				rep.Inc("resize_ops")
 				table.Resize(nm)
-				// the property says nothing about Len right after Resize without Clear;
-				// the search always re-creates or clears: do the same
-				table.Clear()
+				// a resized table is empty: no Clear needed for Len/Hashfull to be right
+				if r.Chance(0.3) {
+					table.Clear()
+				}
 				mb = nm
 				model.cap = expectedCap(nm)
 				model.slots = map[uint64]*mEntry{}
